@@ -82,10 +82,10 @@ func (c03) Gen(r *core.Rng, tier string, idx int) *core.Trace {
 		// partition): the range given is what counts
 		t = &core.Trace{Cfg: map[string]int64{}, CfgS: map[string]string{}}
 		t.Cfg["ftype"] = core.PickOf[int64](r, 12, 16, 32)
-		t.Cfg["size"] = map[int64]int64{12: r.Range(2, 6) << 20, 16: r.Range(6, 24) << 20, 32: r.Range(4, 40) << 20}[t.Cfg["ftype"]]
+		t.Cfg["size"] = map[int64]int64{12: r.Range(2, 6) << 20, 16: r.Range(6, 12) << 20, 32: r.Range(4, 12) << 20}[t.Cfg["ftype"]]
 		t.Cfg["start"] = core.PickOf[int64](r, 0, 1<<20, 5<<30)
 		t.Cfg["given"] = r.Range(40, 95) // percent of the volume's size that the second open is given
-		t.Cfg["per"] = core.PickOf[int64](r, 4096, 65536, 1<<20)
+		t.Cfg["per"] = core.PickOf[int64](r, 65536, 300000, 1<<20)
 	}
 	t.CfgS["wl"] = wl
 	return t
